@@ -10,6 +10,7 @@ import (
 	"fmt"
 	"os"
 	"path/filepath"
+	"regexp"
 	"runtime"
 	"runtime/debug"
 	"sort"
@@ -230,6 +231,48 @@ type WorkerResult struct {
 	Level      string       `json:"level"`
 	Rule       string       `json:"rule"`
 	Slowest    []string     `json:"slowest"`
+	// Known counts violations that match a committed known finding (by
+	// signature); they are not minimised and do not end the exploration.
+	Known map[string]int `json:"known"`
+}
+
+type knownFinding struct {
+	Property string `json:"property"`
+	Sig      string `json:"signature"`
+	Regex    string `json:"signature_regex"`
+	What     string `json:"what"`
+}
+
+func loadKnown(prop string) []knownFinding {
+	var file struct {
+		Findings []knownFinding `json:"findings"`
+	}
+	b, err := os.ReadFile(os.Getenv("PEGSIM_KNOWN"))
+	if err != nil {
+		return nil
+	}
+	json.Unmarshal(b, &file)
+	var out []knownFinding
+	for _, f := range file.Findings {
+		if f.Property == prop {
+			out = append(out, f)
+		}
+	}
+	return out
+}
+
+func matchKnown(ks []knownFinding, v *Violation) *knownFinding {
+	for i, k := range ks {
+		if k.Sig != "" && k.Sig == v.Signature {
+			return &ks[i]
+		}
+		if k.Regex != "" {
+			if re, err := regexp.Compile(k.Regex); err == nil && re.MatchString(v.Signature) {
+				return &ks[i]
+			}
+		}
+	}
+	return nil
 }
 
 func shortHash(s string) string {
@@ -396,6 +439,7 @@ func Worker(t *testing.T, prop, tier string, baseSeed uint64, worker, workers in
 		}()
 	}
 	env.Deadline = start.Add(budget + budget/4)
+	known := loadKnown(prop)
 	one, _ := strconv.ParseUint(os.Getenv("PEGSIM_ONESEED"), 10, 64)
 	for j := worker; time.Since(start) < budget; j += workers {
 		seed := subSeed(baseSeed, prop, j)
@@ -428,6 +472,14 @@ func Worker(t *testing.T, prop, tier string, baseSeed uint64, worker, workers in
 			continue
 		}
 		if v == nil {
+			continue
+		}
+		if k := matchKnown(known, v); k != nil {
+			if res.Known == nil {
+				res.Known = map[string]int{}
+			}
+			res.Known[k.What]++
+			res.Stats.Probe("known_finding: " + trunc(k.What, 80))
 			continue
 		}
 		// violation: minimise, write the replay file, confirm in this process
